@@ -16,6 +16,10 @@ from .searching_retort import SearchingRetort
 
 
 class FuncWrapper:
+    # A stub is compared by identity: it belongs to the request that has created it and becomes callable
+    # only when that request binds it. If stubs of different requests were equal (e.g. by location),
+    # the shared call cache would hand a closure referencing an unbound stub of an in-flight request
+    # (of another thread) to a request that can not know when it will be bound.
     __slots__ = ("__call__", "_key")
 
     def __init__(self, key):
@@ -24,14 +28,6 @@ class FuncWrapper:
 
     def set_func(self, func):
         self.__call__ = func
-
-    def __eq__(self, other):
-        if isinstance(other, FuncWrapper):
-            return self._key == other._key
-        return NotImplemented
-
-    def __hash__(self):
-        return hash(self._key)
 
 
 CallableT = TypeVar("CallableT", bound=Callable)
